@@ -188,6 +188,58 @@ def sweep_task(task):
                 break
         else:
             same_as_generous = 0
+    # sizes far above G (the default 500 words, the largest size the compiler accepts at this word size): the emitted code is the
+    # same, every absolute stack address differs.  Every path must be safe under the monitor, overflow there implies overflow at G,
+    # and every other path equals the generous run on the inputs on which the generous run does not overflow.
+    not_og = [z3.Not(z3.Or(*O_G))] if O_G else []
+    for s in task.get('extra_sizes', []):
+        if res['violations'] or res['inconclusive'] or time.time() > t_end:
+            break
+        try:
+            c, compiled, b, paths = run_at(s)
+        except H.CompilerError as e:
+            res['harness_errors'].append('%s: stack size %d rejected: %s' % (case.name, s, e))
+            continue
+        res['sizes'] += 1
+        res.setdefault('extra_sizes_run', []).append(s)
+        for p in paths:
+            if p.kind in ('bound', 'unknown') or (p.kind == 'unspecified' and 'more than' in str(p.info)):
+                res['inconclusive'].append('%s@%d: path %s (%s)' % (case.name, s, p.kind, p.info))
+                continue
+            st.obligations += 1
+            if p.kind in ('violation', 'unspecified', 'halt'):
+                report_path(c, compiled, b, p, p.kind)
+                continue
+            terms = []
+            if not is_overflow(p):
+                for g in gcases:
+                    if g.kind != p.kind or is_overflow(g):
+                        continue
+                    d = events_differ_cond(dec.T, p.events, g.events)
+                    if d is True:
+                        continue
+                    gc_ = conj(g.conds)
+                    terms.append(gc_ if d is None else z3.And(gc_, z3.Not(d)))
+            try:
+                m = dec.check(list(p.conds) + not_og + ([z3.Not(z3.Or(*terms))] if terms else []))
+            except Inconclusive as e:
+                res['inconclusive'].append('%s@%d: %s' % (case.name, s, e))
+                continue
+            if m is None:
+                st.discharged += 1
+                continue
+            argv = argv_for_compiled(compiled, model_argv(b.vm, m), W)
+            bt = build(c, argv=argv, compiled=compiled, max_steps=200000)
+            bg = build(gc, argv=argv, compiled=gcomp, max_steps=200000)
+            pt, pg = bt.vm.run()[0], bg.vm.run()[0]
+            if (pt.kind, conc_events(pt.events)) == (pg.kind, conc_events(pg.events)):
+                res['harness_errors'].append('%s@%d: large/generous difference did not replay (argv %s)' % (case.name, s, argv))
+            else:
+                res['violations'].append(dict(
+                    what='a run that completes with %d words of stack behaves differently with %d words' % (G, s),
+                    case=case.name,
+                    replay=dict(type='vm-events', src=case.src, word=W, stack=s, unchecked=False, argv=jsonable_argv(argv),
+                                expected=[conc_events(pg.events)], expected_kind=pg.kind, observed=dict(kind=pt.kind, events=conc_events(pt.events), info=str(pt.info)))))
     res['first_ok_size'] = first_ok
     st.queries += dec.nq
     st.solver_s += dec.tq
@@ -226,7 +278,11 @@ def add_tasks(tasks, c, full, wall):
         for lo in range(0, G, 6):
             tasks.append(case_to_task(c.with_(name='%s[%d..%d]' % (c.name, lo, lo + 5)), G=G, lo=lo, hi=lo + 6, full=True, wall=wall))
         return
-    tasks.append(case_to_task(c, G=G, full=full, wall=wall))
+    extra = []
+    if G == 56:
+        # far above G: the default size and the largest size the compiler accepts at 16 bit (5000 words at wider words)
+        extra = [500, ((1 << 15) - 1) // 2 - 5 if W == 2 else 5000]
+    tasks.append(case_to_task(c, G=G, full=full, wall=wall, extra_sizes=extra))
 
 
 def main():
@@ -273,8 +329,8 @@ def main():
                 'library routine as callee, recursion, defeat functions) + scope/sequential/time-travel slices; each compiled at every stack size from 0 words up to the size '
                 'after which overflow behaviour equals the generous stack for 3 consecutive sizes (all sizes up to G for allocation templates in the thorough tier)')
     rep.functions_encoded = ['hidc/codegen/tracker.py Tracker.add/update/push_level/pop_level (CrossHair)', 'function-entry guard, VLA guards, Tracker-derived constants, array literal allocation, index checks, stdlib routines (write_int digit buffer) as emitted for each template and size']
-    rep.bounds = dict(word_sizes=sorted(set(t['word'] for t in tasks)), stack_sizes='0..G words, G = 56', instructions_per_path=8000,
-                      outside='stack sizes above G are not enumerated (the emitted code depends on the size only through .zero and label addresses); programs outside the families')
+    rep.bounds = dict(word_sizes=sorted(set(t['word'] for t in tasks)), stack_sizes='0..G words, G = 56; plus 500 and the largest accepted size (16378 words at 16 bit, 5000 at wider words) for templates with G = 56', instructions_per_path=8000,
+                      outside='stack sizes between G and the two large sizes are not enumerated (the emitted code depends on the size only through .zero and label addresses); programs outside the families')
     rep.assumptions = ['Sphinx machine model (DESIGN section 3)', 'region classification: [fp]-based = frame traffic; other computed origins = element access; library code may use [ap, fp) below its frame',
                        'events of the generous-stack run are the reference for "no silent corruption" (their correctness is C01/C02)']
     return rep.finish()
